@@ -133,6 +133,7 @@ def install(ctx, repo, probes):
                "sibling/interval", "sibling/interval-regrouped",
                "sibling/tiny-interval",
                "twin/zone", "twin/representation", "twin/end-of-day",
+               "twin/fraction-units",
                "twin/units", "roundtrip/fmt1", "roundtrip/fmt3",
                "roundtrip/fmt4", "roundtrip/cross-mode")
 
@@ -235,6 +236,19 @@ def run_case(ctx, repo, case):
                 else:
                     ctx.cls("twin/" + what)
                 ctx.nontrivial((dkey, "twin", what))
+            pair = fraction_twins(repo, rng, rec)
+            if pair is not None:
+                a, b = pair
+                # (equality of float totals is the library's own verdict;
+                # the demand is only: equal -> equal hashes, one set member)
+                if (a == b) is True and (b == a) is True:
+                    if hash(a) != hash(b) or len({a, b}) != 1:
+                        ctx.violation(
+                            "twin.fraction-units", "equal recurrences whose "
+                            "interval spells its days as days / as hours "
+                            "hash differently: %s vs %s" % (_rk(a), _rk(b)))
+                    else:
+                        ctx.cls("twin/fraction-units")
         elif op == "roundtrip":
             ctx.ev("roundtrip")
             try:
@@ -424,6 +438,35 @@ def twin_variants(repo, rng, mode, rec):
     return out
 
 
+def fraction_twins(repo, rng, rec):
+    """two recurrences with one interval that has a decimal (not binary)
+    fraction of a second, the whole days spelled as days in one and as hours
+    in the other -> (a, b) or None"""
+    d = rec._duration
+    fmt = rec._format_number
+    if fmt not in (3, 4) or d is None or not R.dur_is_integral(d) or \
+            not R.dur_is_exact(d) or d._weeks is not None or \
+            R.dur_len(d) <= 0:
+        return None
+    frac = rng.choice((0.1, 0.3, 0.7, 0.9, 0.01))
+    days, hours, minutes, secs = d._days, d._hours, d._minutes, d._seconds
+    if days <= 0:
+        days = d._days + 1      # (at least one whole day to re-spell)
+    a = repo.Duration(days=days, hours=hours, minutes=minutes,
+                      seconds=secs + frac)
+    b = repo.Duration(hours=hours + 24 * days, minutes=minutes,
+                      seconds=secs + frac)
+    key = "start_point" if fmt == 3 else "end_point"
+    anchor = rec._start_point if fmt == 3 else rec._end_point
+    try:
+        return (repo.TimeRecurrence(repetitions=rec._repetitions,
+                                    duration=a, **{key: anchor}),
+                repo.TimeRecurrence(repetitions=rec._repetitions,
+                                    duration=b, **{key: anchor}))
+    except ValueError:
+        return None
+
+
 def workload(ctx, repo):
     rng = ctx.rng
     n = 3500 if ctx.tier == "quick" else 10000
@@ -451,6 +494,12 @@ def workload(ctx, repo):
         if v in (0, 1):
             case = {"op": "shift", "desc": desc,
                     "shift": gen.rand_exact_dur(rng, integral=True)}
+            if k % 25 == 0:
+                # shifts longer than a 400-year cycle
+                case["shift"] = rng.choice((
+                    {"days": 150000}, {"weeks": -21000},
+                    {"hours": 7200000}, {"days": -146097},
+                    {"days": 146098, "seconds": 1}))
         elif v == 2:
             case = {"op": "siblings", "desc": desc}
         elif v == 3:
